@@ -104,6 +104,30 @@ DUP_SHAPES = [
 
 
 
+def glue_solo(spec):
+    """The derive under test is the only strum derive on the enum: its #[strum(..)] helper attribute must still be accepted."""
+    en = spec.enabled()
+    names = c03.canon_list(spec)
+    ty = spec.ty()
+    d = spec.derives[0]
+    body = spec.render() + "\n"
+    body += "pub fn drive(m: &mut vmon::Mon) {\n"
+    body += "    " + make_fn(spec, en) + "\n"
+    if d == "EnumCount":
+        body += "    m.expect_eq(\"lists\", \"COUNT (only derive on the enum)\", \"count\", &<%s as strum::EnumCount>::COUNT, &%d, true);\n" % (ty, len(en))
+    elif d == "EnumIter":
+        body += "    let mk = || <%s as strum::IntoEnumIterator>::iter();\n" % ty
+        body += "    vmon::iter::check_list(m, &mk, %d, &make, %d, true);\n" % (len(en), len(en))
+    elif d == "VariantNames":
+        body += "    vmon::names::check_table(m, \"lists\", \"VariantNames::VARIANTS (only derive on the enum)\", <%s as strum::VariantNames>::VARIANTS, %s, true);\n" % (ty, str_slice(names))
+    else:
+        allv = ", ".join(v.ctor(spec.path(), []) for v in spec.variants)
+        body += "    let want_all: Vec<%s> = vec![%s];\n" % (ty, allv)
+        body += "    m.expect_eq(\"lists\", \"VariantArray::VARIANTS (only derive on the enum)\", \"all\", &<%s as strum::VariantArray>::VARIANTS.to_vec(), &want_all, true);\n" % ty
+    body += "}\n"
+    return body
+
+
 def check(run):
     deps, vmon = setup(run)
     thorough = run.tier == "thorough"
@@ -130,7 +154,17 @@ def check(run):
                     variants[disabled_at].disabled = True
                 specs.append(EnumSpec(name="D%d" % len(specs), variants=variants, serialize_all=style, prefix=pref,
                                       derives=["EnumCount", "EnumIter", "VariantNames", "VariantArray", "Display", "AsRefStr"]))
-    units = [shards.Unit("u_" + s.name.lower(), glue(s), meta={"enum_src": s.render()}, sig=s.signature()) for s in specs]
+    solo = []
+    for i in range(200 if thorough else 48):
+        n = r.choice([1, 2, 3, 5])
+        mask = [r.random() < 0.35 for _ in range(n)]
+        so = build(r, "Solo%d" % i, n, mask, fieldless=True)
+        so.derives = [["EnumCount"], ["EnumIter"], ["VariantNames"], ["VariantArray"]][i % 4]
+        so.tags.append("solo:" + so.derives[0])
+        solo.append(so)
+    specs = specs + solo
+    units = [shards.Unit("u_" + s.name.lower(), (glue_solo(s) if any(t.startswith("solo:") for t in s.tags) else glue(s)),
+                         meta={"enum_src": s.render()}, sig=s.signature()) for s in specs]
     run.rule = RULE
     samples = standard_flow(run, units, deps["std"], vmon, profiles=("debug",), tag="c08")
     pick_samples(run, samples, {u.name: u for u in units})
